@@ -234,6 +234,10 @@ RICH_TEMPLATES = [
     ("unused_variable", ["l{k} = lambda *, z: [z for q{k} in range(2)]"], "l{k}(z=1)"),
 ]
 FIX_TEMPLATES += RICH_TEMPLATES
+FIX_TEMPLATES += [
+    ("use_fstrings", ["s{k} = ('e %s' % x +", "'tail')"], "s{k}"),
+    ("unused_variable", ["u{k} = [x,", "y]"], "x"),
+]
 # the replacement attached to unused_ignore reports (remove the comment line / strip the comment)
 FIX_TEMPLATES += [
     ("unused_ignore", ["# static analysis: ignore[bad_unpack]", "print(x)"], "x"),
@@ -704,6 +708,7 @@ def run(tier: str, replay: str | None = None):
 
     # ---- part B: node replacements ------------------------------------------
     apply_lines, apply_meta = [], []
+    range_lines, range_meta = [], []
     for (tcode, lines), r in zip(fix_cases, res_b):
         if r["error"] and not r["steps"]:
             harness_problems.append(f"fix case {tcode}: {r['error'][:300]}")
@@ -763,6 +768,26 @@ def run(tier: str, replay: str | None = None):
                 enc += [str(len(old_lines))] + [c11.enc_line(l) for l in old_lines]
                 apply_lines.append(" ".join(enc))
                 apply_meta.append((text, ap, new))
+            # tie of C16_replace_node_lines: the deleted lines are get_line_range_for_node of some statement
+            # of the old tree, as the translated function computes it
+            if exe is not None and ap is not None and ap["del"] and code in ("unused_variable", "use_fstrings", "missing_f", "too_many_positional_args") and _parses(text):
+                old_lines = text.splitlines()
+                cands = []
+                for st in ast.walk(ast.parse(text)):
+                    if isinstance(st, ast.stmt):
+                        first = min([st.lineno] + [d.lineno for d in getattr(st, "decorator_list", [])])
+                        last0 = first + 1
+                        for ch in ast.walk(st):
+                            e = getattr(ch, "end_lineno", None)
+                            if e is not None:
+                                last0 = max(last0, e)
+                            elif hasattr(ch, "lineno"):
+                                last0 = max(last0, ch.lineno)
+                        if first == min(ap["del"]):
+                            cands.append((first, last0))
+                cands = sorted(set(cands))
+                range_lines.append([f"R {a} {b} {len(old_lines)} " + " ".join(c11.enc_line(l) for l in old_lines) for a, b in cands])
+                range_meta.append((text, ap["del"], cands))
             if problems:
                 facts = removal_facts(text, ap) if _parses(text) else None
                 fid = None
@@ -810,6 +835,18 @@ def run(tier: str, replay: str | None = None):
         except RuntimeError as ex:
             rep.violation({"kind": "broken-correspondence", "correspondence": "Gen.ApplyGen.apply_changes vs _apply_changes_to_lines", "detail": str(ex)[-1500:]}, no_failing_input=True)
 
+    range_mismatch = []
+    if exe is not None and range_lines:
+        try:
+            flat = [q for qs in range_lines for q in qs]
+            outs = iter(lib.ocaml_run(exe, flat)) if flat else iter(())
+            for (text, dels, cands), qs in zip(range_meta, range_lines):
+                got = [[int(x) for x in next(outs).split()] for _ in qs]
+                if sorted(dels) not in got:
+                    range_mismatch.append({"text": text, "deleted": dels, "model_ranges": got, "candidates": cands})
+        except RuntimeError as ex:
+            rep.violation({"kind": "broken-correspondence", "correspondence": "Gen.RangeGen.line_range vs get_line_range_for_node", "detail": str(ex)[-1500:]}, no_failing_input=True)
+
     # ---- report ------------------------------------------------------------
     for f in failing[:10]:
         f["how_to_run"] = "./check C16 --replay <this file>"
@@ -822,6 +859,9 @@ def run(tier: str, replay: str | None = None):
     if shift_violations and not found_input:
         rep.violation({"kind": "broken-correspondence", "correspondence": "raw stream of the rewritten file = old raw stream moved down with its lines (as multisets)",
                        "input": {"text": shift_violations[0]["text"], "cfg": BASE_CFG}, "detail": shift_violations[0]}, no_failing_input=True)
+    if range_mismatch and not found_input:
+        rep.violation({"kind": "broken-correspondence", "correspondence": "Gen.RangeGen.line_range (extracted) vs analysis_lib.get_line_range_for_node (lines deleted by the applied replacement)",
+                       "input": range_mismatch[0]}, no_failing_input=True)
     if apply_mismatch and not found_input:
         rep.violation({"kind": "broken-correspondence", "correspondence": "Gen.ApplyGen.apply_changes (extracted) vs BaseNodeVisitor._apply_changes_to_lines",
                        "input": apply_mismatch[0]}, no_failing_input=True)
@@ -846,6 +886,8 @@ def run(tier: str, replay: str | None = None):
         correspondence_mismatches=len(corr_mismatch),
         apply_changes_compared=len(apply_meta),
         apply_changes_mismatches=len(apply_mismatch),
+        line_ranges_compared=len(range_meta),
+        line_range_mismatches=len(range_mismatch),
         oracle_failures=len(failing),
         input_distribution=dict(hist),
     )
